@@ -45,3 +45,45 @@ Fixpoint do_pops (rg : regs) (ps : list N) (stack : list N) : regs :=
   | [] => rg
   | r :: tl => match stack with v :: st => do_pops (set_reg rg r v) tl st | [] => rg end
   end.
+
+(* ---- Windows-GNU files (Microsoft x64 convention): additionally rsi, rdi and xmm6-xmm15 are callee-saved; the xmm
+   registers are saved to slots of the frame by the prologue and reloaded by the epilogue ---- *)
+Definition wrow := (list N * bool * N * list N * list N * list (N * N) * list (N * N) * list (N * N) * list N * list N)%type.
+Definition w_name (r : wrow) := let '(n, _, _, _, _, _, _, _, _, _) := r in n.
+Definition w_frame (r : wrow) := let '(_, _, n, _, _, _, _, _, _, _) := r in n.
+Definition w_pushes (r : wrow) := let '(_, _, _, p, _, _, _, _, _, _) := r in p.
+Definition w_pops (r : wrow) := let '(_, _, _, _, p, _, _, _, _, _) := r in p.
+Definition w_saves (r : wrow) := let '(_, _, _, _, _, s, _, _, _, _) := r in s.
+Definition w_restores (r : wrow) := let '(_, _, _, _, _, _, s, _, _, _) := r in s.
+Definition w_stores (r : wrow) := let '(_, _, _, _, _, _, _, s, _, _) := r in s.
+Definition w_gwritten (r : wrow) := let '(_, _, _, _, _, _, _, _, g, _) := r in g.
+Definition w_xwritten (r : wrow) := let '(_, _, _, _, _, _, _, _, _, x) := r in x.
+
+Fixpoint pairs_eqb (a b : list (N * N)) : bool :=
+  match a, b with
+  | [], [] => true
+  | (x1, y1) :: a', (x2, y2) :: b' => (x1 =? x2) && (y1 =? y2) && pairs_eqb a' b'
+  | _, _ => false
+  end.
+
+Definition disjoint16 (o1 o2 : N) : bool := (o1 + 16 <=? o2) || (o2 + 16 <=? o1).
+Fixpoint slots_disjoint (offs : list N) : bool :=
+  match offs with [] => true | o :: tl => forallb (disjoint16 o) tl && slots_disjoint tl end.
+
+Definition win_ok (r : wrow) : bool :=
+  list_eqb (w_pops r) (rev (w_pushes r)) && nodup (w_pushes r) &&
+  forallb (fun w => mem w (w_pushes r)) (w_gwritten r) &&
+  pairs_eqb (w_saves r) (w_restores r) &&
+  nodup (map fst (w_saves r)) && slots_disjoint (map snd (w_saves r)) &&
+  forallb (fun s => snd s + 16 <=? w_frame r) (w_saves r) &&
+  forallb (fun st => (fst st + snd st <=? w_frame r) &&
+                     forallb (fun s => (fst st + snd st <=? snd s) || (snd s + 16 <=? fst st)) (w_saves r)) (w_stores r) &&
+  forallb (fun x => mem x (map fst (w_saves r))) (w_xwritten r).
+
+(* xmm registers and the save slots: both as functions to (abstract) 128-bit values *)
+Definition xregs := N -> N.
+Definition slots := N -> N.
+Fixpoint do_saves (xr : xregs) (svs : list (N * N)) (m : slots) : slots :=
+  match svs with [] => m | (r, off) :: tl => do_saves xr tl (fun o => if o =? off then xr r else m o) end.
+Fixpoint do_restores (xr : xregs) (svs : list (N * N)) (m : slots) : xregs :=
+  match svs with [] => xr | (r, off) :: tl => do_restores (fun x => if x =? r then m off else xr x) tl m end.
